@@ -45,7 +45,7 @@ def gen_case(rng, tier, idx):
     sched = gen_sched(rng, ('P',) if plain else ('P', 'U', 'R', 'X'), budget_choices=(5, 20, 60))
     if rng.random() < 0.65:
         long_run = rng.random() < 0.03      # long roll-outs with strong discounting: discount**t leaves the normal float range
-        spec = gen_mdp_spec(rng, extreme=True, **_size(rng), proper=(rng.random() < 0.7) and not long_run, discounts=(0.1, 0.5) if long_run else (0.1, 0.5, 0.8, 0.9, 0.95, 0.99, 1.0))
+        spec = gen_mdp_spec(rng, extreme=True, **_size(rng), proper=(rng.random() < 0.7) and not long_run, discounts=(0.1, 0.5) if long_run else (0.1, 0.5, 0.8, 0.9, 0.95, 0.99, 1.0, 0.99999, 1 - 1e-8))
         v = MDPView(spec)
         kind = rng.choice(('functional', 'tabular', 'deterministic'))
         pol = []
@@ -311,6 +311,9 @@ def _exec_mdp(view, cfg, ctx, sched):
     except Exception as e:
         raise Violation('exception', f"evaluate_on raised {type(e).__name__}: {e}")
     ctx.check(len(runs) == nsim, 'mc-count', lambda: f"evaluate_on made {len(runs)} roll-outs, n_simulations={nsim}")
+    # returns are sums of up to ecap+1 rewards: two correct ways of adding them up differ by ~1e-16 of the largest partial sum,
+    # which for rewards of the order 1e9 that nearly cancel is far more than 1e-9 of the result
+    ATOL = 1e-9 + 1e-13 * max([abs(float(r)) for r in view.R.values()] + [0.0]) * (ecap + 1)
     iv = []
     refs = {True: ({}, {}), False: ({}, {})}      # closing state counted?  -> (state samples, action samples)
     for i, run_ in enumerate(runs):
@@ -332,7 +335,7 @@ def _exec_mdp(view, cfg, ctx, sched):
                     continue
                 refs[conv][0].setdefault(s, []).append(Gs[t])
                 refs[conv][1].setdefault((s, a), []).append(Gs[t])
-    ctx.check(close(float(ev.initial_value), float(np.mean(iv)), 1e-9, 1e-9), 'mc-average',
+    ctx.check(close(float(ev.initial_value), float(np.mean(iv)), 1e-9, ATOL), 'mc-average',
               lambda: f"initial_value {float(ev.initial_value)!r} != mean of the roll-outs' returns {float(np.mean(iv))!r}")
     try:
         got_sv = {sid[s]: float(v) for s, v in ev.state_value.items()}
@@ -352,10 +355,10 @@ def _exec_mdp(view, cfg, ctx, sched):
             why[conv] = f"states {sorted(got_sv)} vs visited {sorted(sv)}"
             continue
         for s, l in sv.items():
-            if not close(got_sv[s], float(np.mean(l)), 1e-9, 1e-9):
+            if not close(got_sv[s], float(np.mean(l)), 1e-9, ATOL):
                 ok = False
                 why[conv] = f"state_value[{s}]={got_sv[s]!r} vs mean return {float(np.mean(l))!r}"
-            if not close(got_oc[s], len(l) / nsim, 1e-9, 1e-9):
+            if not close(got_oc[s], len(l) / nsim, 1e-9, ATOL):
                 ok = False
                 why[conv] = f"state_occupancy[{s}]={got_oc[s]!r} vs visits/n {len(l) / nsim!r}"
         if set(got_av) != set(av):
@@ -363,7 +366,7 @@ def _exec_mdp(view, cfg, ctx, sched):
             why[conv] = f"action_value keys {sorted(got_av, key=str)} vs {sorted(av, key=str)}"
         else:
             for k, l in av.items():
-                if not close(got_av[k], float(np.mean(l)), 1e-9, 1e-9):
+                if not close(got_av[k], float(np.mean(l)), 1e-9, ATOL):
                     ok = False
                     why[conv] = f"action_value[{k}]={got_av[k]!r} vs mean {float(np.mean(l))!r}"
         if ok:
@@ -387,7 +390,7 @@ def _exec_mdp(view, cfg, ctx, sched):
             disc *= g
             s = ns
         ctx.probe('deterministic_exact_eval')
-        ctx.check(close(float(ev.initial_value), G, 1e-9, 1e-9), 'mc-exact-deterministic',
+        ctx.check(close(float(ev.initial_value), G, 1e-9, ATOL), 'mc-exact-deterministic',
                   lambda: f"deterministic policy on deterministic MDP: initial_value {float(ev.initial_value)!r} != exact truncated return {G!r}")
     return ctx.result()
 
@@ -403,7 +406,8 @@ def _check_returns(ctx, Policy, rewards, g, tag):
         G = r + g * G
         ref.append(G)
     ref = ref[::-1]
-    bad = [i for i, (a, b) in enumerate(zip(rets, ref)) if not close(a, b, 1e-9, 1e-9)]
+    atol = 1e-9 + 1e-13 * sum(abs(float(r)) for r in rewards)       # (see ATOL above)
+    bad = [i for i, (a, b) in enumerate(zip(rets, ref)) if not close(a, b, 1e-9, atol)]
     ctx.check(len(rets) == len(ref) and not bad, 'returns-recursion',
               lambda: f"{tag}: calc_returns over {len(rewards)} rewards at discount {g}: entry {bad[0] if bad else '-'} is "
               f"{rets[bad[0]] if bad else None!r}, the backward recursion gives {ref[bad[0]] if bad else None!r} (lengths {len(rets)}/{len(ref)})")
